@@ -131,8 +131,6 @@ Definition decl_link (S : nat) (d : symdecl) : link :=
   | DSet ty key lk => LkSet S ty key lk
   end.
 
-Definition middle (parts : list str) : list str := removelast (tl parts).
-
 (* createCompositeEntitySymbol *)
 Definition make_composite (first : link) (rest : rsym) : option rsym :=
   let chain0 :=
@@ -168,12 +166,12 @@ Fixpoint resolve_parts (sch : schema) (fuel : nat) (S : nat) (parts : list str) 
       | Some d => Some (RSimple (decl_link S d))
       | None =>
           match parts with
-          | p0 :: (_ :: _) as parts =>
+          | p0 :: ((_ :: _) as rest_parts) =>
               match p0 with
               | [] => None     (* strings.IndexRune(name, '.') > 0 *)
               | _ =>
                 match assoc p0 (st_maps sd) with
-                | Some m => Some (RSimple (LkField S (m_ty m) (m_prefix m ++ [m_key m] ++ middle parts ++ [last parts []]) None))
+                | Some m => Some (RSimple (LkField S (m_ty m) (m_prefix m ++ [m_key m] ++ removelast rest_parts ++ [last rest_parts []]) None))
                 | None =>
                     match fuel with
                     | O => None
@@ -184,7 +182,7 @@ Fixpoint resolve_parts (sch : schema) (fuel : nat) (S : nat) (parts : list str) 
                             if link_iterable first then
                               match link_linked first with
                               | Some S' =>
-                                  match resolve_parts sch fuel' S' (tl parts) with
+                                  match resolve_parts sch fuel' S' rest_parts with
                                   | Some rest => make_composite first rest
                                   | None => None
                                   end
@@ -203,3 +201,42 @@ Fixpoint resolve_parts (sch : schema) (fuel : nat) (S : nat) (parts : list str) 
 
 Definition resolve (sch : schema) (S : nat) (name : str) : option rsym :=
   let parts := split_dot name in resolve_parts sch (length parts) S parts.
+
+(* ---- the meaning of resolved symbols on a dataset ---- *)
+(* SetCursor.Current() / GetTypeAndValue of a key used as a row id: the key without its type tag *)
+Definition elem_id (v : sval) : option str := match v with VStr s => Some s | _ => None end.
+Definition id_of (v : sval) : str := match elem_id v with Some s => s | None => [] end.
+
+(* EntitySymbol.Eval of one chain element on a row id *)
+Fixpoint link_value (d : db) (l : link) (id : str) : sval :=
+  match l with
+  | LkId => VStr id
+  | LkField st _ path _ => field_get d st id path
+  | LkSet _ _ _ _ => VNil                      (* entitySetSymbolImpl.Eval: (0, nil) *)
+  | LkComp _ chain =>                           (* nonSetCompositeEntitySymbol.Eval: follow the chain *)
+      (fix go (c : list link) (cur : sval) : sval :=
+         match c with
+         | [] => cur
+         | x :: r => go r (link_value d x (id_of cur))
+         end) chain (VStr id)
+  end.
+
+(* iterableEntitySymbol.newQueryPath: the keys one chain element contributes for a row:
+   a single-valued symbol its (possibly null) value, a set symbol its elements *)
+Definition link_step (d : db) (l : link) (id : str) : list sval :=
+  match l with
+  | LkField st _ path _ => [field_get d st id path]
+  | LkSet st _ key _ => set_get d st id key
+  | _ => []
+  end.
+
+(* all keys reached from [key] through the chain, depth first, in order *)
+Fixpoint chain_enum (d : db) (chain : list link) (key : sval) : list sval :=
+  match chain with
+  | [] => [key]
+  | l :: up => flat_map (chain_enum d up) (link_step d l (id_of key))
+  end.
+
+(* compositeEntitySetSymbol.Eval on a cursor key (cursorLastF, fixes/C01-composite-last-eval.patch) *)
+Definition last_value (d : db) (last : option link) (key : sval) : sval :=
+  match last with None => key | Some l => link_value d l (id_of key) end.
